@@ -141,9 +141,10 @@ PROPS = {
                 "non-trivial = history in which at least one KEEPALIVE and one message are written (distinct histories)",
     },
     "C14": {
-        "lean": ["AriVerif.Props.C14", "AriVerif.Props.C16S", "AriVerif.Props.SkelLifecycle"],
+        "lean": ["AriVerif.Props.C14", "AriVerif.Props.C16S", "AriVerif.Props.SkelLifecycle", "AriVerif.Props.SkelSender"],
         "gen": ["Skeleton"],
-        "streams": [s_conc.data_stream(["C14"], "data-cosim-startup"), s_wire.stream_writers],
+        "streams": [s_conc.data_stream(["C14"], "data-cosim-startup"),
+                    s_conc.data_stream(["C14"], "data-cosim-startup-close", tails=(None, "close", "close-first", "close-first")), s_wire.stream_writers],
         "trusted": [KERNEL, HARNESS, "the scheduler shim (harness/shim.py): its semantics for Lock/RLock, Queue (FIFO, unbounded), Event, Thread, ThreadPoolExecutor (FIFO work queue, <= n running, shutdown waits), socket (recv returns a non-empty prefix, b'' at EOF; sendall all-or-exception), virtual clock; the real code runs unmodified, module attributes are patched from the harness",
                     "Startup.lean abstracts every reader-side producer as an `.enqueue` guarded by 'reader started'; that the real "
                     "start() follows the modelled order is what the M/W/R start-up chunks of the co-simulation compare"],
